@@ -73,3 +73,31 @@ keep("V05b", ALL, [("state_space.py", 'axis_names = vi.query("is_dense & is_stat
      why="equivalent query")
 keep("V05c", ALL, [("simulate.py", '"~is_continuous & is_dense & is_choice",', '"is_discrete & ~is_sparse & ~is_state",', 1)],
      why="equivalent query")
+
+# ------------------------------------------------------------------------------ R3 PER
+brk("P01", ["C01"], "solve_brute.py", "for period in reversed(range(n_periods)):", "for period in range(n_periods):",
+    "solve loop forward")
+brk("P02", ["C01", "C05"], "solve_brute.py", "return list(reversed(reversed_solution))", "return reversed_solution",
+    "result not reversed")
+brk("P03", ["C01"], "entry_point.py", "    space_infos = space_infos[1:] + [{}]\n", "    space_infos = space_infos + [{}]\n",
+    "space_infos not shifted")
+brk("P04", ["C01", "C06"], "entry_point.py", "    state_indexers = state_indexers[1:] + [{}]\n", "",
+    "state_indexers shift removed (D2 re-introduced)")
+brk("P05", ["C06", "C01"], "simulate.py", "    vf_arr_list = vf_arr_list[1:] + [None]\n", "    vf_arr_list = vf_arr_list + [None]\n",
+    "vf_arr_list not shifted in simulate")
+brk("P06", ["C01", "C11"], "entry_point.py", "    last_period = _mod.n_periods - 1\n", "    last_period = _mod.n_periods\n",
+    "is_last_period never true")
+brk("P07", ["C01"], "entry_point.py", "            choice_segments=choice_segments[period],",
+    "            choice_segments=choice_segments[period - 1],", "emax built with another period's segments")
+brk("P08", ["C01"], "solve_brute.py", "            vf_arr=vf_arr,\n            state_indexers=state_indexers[period],",
+    "            vf_arr=vf_arr,\n            state_indexers=state_indexers[period - 1],", "indexer of the wrong period in solve")
+brk("P09", ["C01", "C11"], "entry_point.py", "            period=period,\n            is_last_period=is_last_period,\n        )\n\n        compute_ccv",
+    "            period=period + 1,\n            is_last_period=is_last_period,\n        )\n\n        compute_ccv", "u_and_f built for period+1")
+brk("P10", ["C06"], "entry_point.py", "        _target = partial(simulate_model, solve_model=solve_model)",
+    "        _target = partial(simulate_model, solve_model=_next_state_simulate)", "solve_and_simulate binds the wrong function")
+keep("V06", ALL, [("entry_point.py", "    space_infos = space_infos[1:] + [{}]\n", "    space_infos = [*space_infos[1:], {}]\n", 1)],
+     why="shifted list built with a starred display")
+keep("V08", ALL, [("solve_brute.py", "return list(reversed(reversed_solution))", "return reversed_solution[::-1]", 1)],
+     why="reversal by slicing")
+keep("V08b", ALL, [("solve_brute.py", "for period in reversed(range(n_periods)):", "for period in range(n_periods - 1, -1, -1):", 1)],
+     why="backward loop written with a negative step")
